@@ -64,6 +64,7 @@ def gen_cases(tier, rng):
     cases.append('G:a:f=0 arg:l,left:b0:init=0/req=r arg:r,right:b1:init=0 G:b:f=0 arg:x:i0: argv:2d6c,2d78,33 exp:reject mut:group-end-checks')
     cases.append('G:a:f=0 arg:l:b0:init=0 arg:m:b1:init=0 con:one_of:l;m G:b:f=0 arg:x:b2:init=0 argv:2d78 exp:reject mut:group-end-checks')
     cases.append('G:b:f=0 arg:x:b0:init=0 G:a:f=0 arg:l:vi0:multi argv:2d6c,31,2d78,32 exp:reject mut:group-free-value')
+    cases.append('G:m0:f=0 arg:-:s0: G:m1:f=0 arg:l:vi0:multi argv:2d6c,31,32 exp:s0=s-;vi0=[1,2] mut:none')
     cases.append('G:a:f=0 arg:l:b0:init=0 G:b:f=0 arg:l,long:b1:init=0 argv:- exp:setup mut:shared-key')
     cases.append('G:a:f=0 arg:a,xray:b0:init=0 G:b:f=0 arg:b,xray:b1:init=0 argv:- exp:setup mut:shared-key')
     cases.append('G:a:f=0 arg:a,xray:b0:init=0 G:b:f=0 arg:a,yankee:b1:init=0 argv:- exp:setup mut:shared-key')
